@@ -22,7 +22,7 @@ ID = "C01"
 LEVEL = "proof"
 MODULES = ["SqlframeModel.Codec.C01", "SqlframeModel.Props.C01"]
 GEN = ["Operations", "Methods", "Clauses"]
-SOURCES = ["SqlframeModel/Props/C01.lean", "SqlframeModel/Lemmas/C01.lean", "SqlframeModel/Lemmas/C01Wrap.lean", "SqlframeModel/Lemmas/C01Steps.lean", "SqlframeModel/Lemmas/C01Dropna.lean", "SqlframeModel/Impl/DataFrame.lean", "SqlframeModel/Impl/C01Scope.lean"]
+SOURCES = ["SqlframeModel/Props/C01.lean", "SqlframeModel/Lemmas/C01.lean", "SqlframeModel/Lemmas/C01Wrap.lean", "SqlframeModel/Lemmas/C01Steps.lean", "SqlframeModel/Lemmas/C01Dropna.lean", "SqlframeModel/Lemmas/Sorted.lean", "SqlframeModel/Impl/DataFrame.lean", "SqlframeModel/Impl/C01Scope.lean"]
 
 KINDS = ["where", "select", "withColumn", "withColumnRenamed", "drop", "distinct", "orderBy", "limit", "fillna", "replace", "toDF", "dropna", "unpivot"]
 NEW_NAMES = ["u", "v", "w", "p", "q"]
